@@ -189,6 +189,9 @@ class TriggerHandler:
             logging.debug("Callbacks registered: %s", callbacks)
             self._callbacks.get().append(
                 CallbackContext(event, file, line, function, callbacks, frame))
+            # the callbacks refer back to the trigger context: it must not refer to them once they are handed over,
+            # or it (and the frame) is only released by the garbage collector
+            trigger_context.callbacks = []
 
         return self.trace_call
 
